@@ -12,12 +12,18 @@ ShiftOK(t) == \A i \in DOMAIN t.shifts :
 InputShiftOK(t) == \A i \in DOMAIN t.shifts :
                  LET r == t.shifts[i] IN
                  IF Sc(t).d = 1 THEN Close1(r.u, Shift1(t.u0, r.s), 0) ELSE Close2(r.u, Shift2(t.u0, r.s), 0)
+\* same batch size and the same number of nodes along every spatial axis
+SameGrid(y, u) == Len(y) = Len(u) /\ \A b \in DOMAIN y : Len(y[b]) = Len(u[b]) /\ \A i \in DOMAIN y[b] : Len(y[b][i]) = Len(u[b][i])
 Check(t) ==
     IF "driver_error" \in DOMAIN t THEN "driver-error"
     ELSE IF t.exc # "" THEN "model-failed:" \o t.exc
     ELSE IF ~t.input_unchanged THEN "input-tensor-modified"
     ELSE IF ~InputShiftOK(t) THEN "driver-shift-mismatch"
     ELSE IF ~ShiftOK(t) THEN "not-shift-equivariant"
+    \* the same object on a grid with one more node along the last axis: output on THAT grid, equivariant there
+    ELSE IF ~SameGrid(t.res2.y0, t.res2.u0) THEN "output-grid-differs-from-input-grid(second resolution)"
+    ELSE IF ~(IF Sc(t).d = 1 THEN Close1(t.res2.y, Shift1(t.res2.y0, t.res2.s), Tol) ELSE Close2(t.res2.y, Shift2(t.res2.y0, t.res2.s), Tol))
+         THEN "not-shift-equivariant(second resolution)"
     ELSE IF "refine" \in DOMAIN t /\ \E i \in DOMAIN t.refine : ~RefineOK(t.refine[i].yc, t.refine[i].yf, t.refine[i].m, Tol) THEN "resolution-inconsistent"
     ELSE "ok"
 Init == tid \in 1..Len(Traces) /\ verdict = Check(Traces[tid]) /\ dev = ""
